@@ -242,6 +242,9 @@ int main(int argc,char** argv){
   for(auto* f:order){ unsigned n=0; names.clear(); for(auto& a:f->args()) names[&a]="a"+std::to_string(n++); out<<proto(f)<<";\n"; }
   out<<"void __ir2c_init_globals(void){\n"<<go.str()<<"}\n\n"<<bo.str();
   out.flush(); out.close();
+  { std::string hp=std::string(argv[2]); hp=hp.substr(0,hp.size()-2)+".h"; std::error_code ec2; raw_fd_ostream hd(hp,ec2);
+    hd<<"/* prototypes of the lifted entry points (ABI-compatible with the real extern \"C\" functions) */\n#include <stdint.h>\n";
+    for(auto& r:roots){ auto* f=M->getFunction(r); unsigned n=0; names.clear(); for(auto& a:f->args()) names[&a]="a"+std::to_string(n++); hd<<proto(f)<<";\n"; } }
   errs()<<"ir2c: "<<order.size()<<" functions ("; unsigned defs=0; for(auto* f:order) if(!f->isDeclaration()&&!stubs.count(f->getName().str())) ++defs; errs()<<defs<<" translated), "<<done.size()<<" globals\n";
   for(auto* f:order) if(f->isDeclaration()||stubs.count(f->getName().str())) errs()<<"  extern/stub: "<<f->getName()<<"\n";
   if(!err.empty()){ errs()<<"ir2c ERRORS:\n"<<err; return 1; }
